@@ -9,6 +9,8 @@ from .utils import DEFAULT
 def HEX2DEC(hex):
     try:
         dec = int(hex, 16)
+        if dec < 0 or dec >= 1099511627776:
+            return error.NUM  # more than 40 bits
         return (dec - 1099511627776) if (dec >= 549755813888) else dec
     except ValueError:
         return error.VALUE
@@ -25,6 +27,8 @@ def DEC2HEX(dec, places=DEFAULT):
             return places
         if places < 0:
             return error.NUM
+    if dec < -549755813888 or dec > 549755813887:
+        return error.NUM  # outside the 40-bit two's-complement range
     if dec < 0:
         places = DEFAULT
         dec = dec + 1099511627776
